@@ -300,6 +300,25 @@ func genData(r *rand.Rand, span int64) []scn.DSeries {
 		}
 		out = append(out, d)
 	}
+	// one dataset in fifteen is wide: 40..120 more series of m (several per group, more than one batch of
+	// series per shard), dense and regular
+	if r.Intn(15) == 0 {
+		n := 40 + r.Intn(81)
+		for k := 0; k < n; k++ {
+			d := scn.DSeries{LS: [][]string{{"__name__", "m"}, {"a", fmt.Sprintf("w%d", k%7)}, {"b", fmt.Sprintf("%d", 100+k)}}, Smp: []scn.Sample{}}
+			from := int64(0)
+			if k%9 == 0 {
+				from = span / 3
+			}
+			for t := from; t < span; t++ {
+				if k%5 == 0 && t%4 == 3 {
+					continue
+				}
+				d.Smp = append(d.Smp, scn.Sample{T: t, K: "f", V: int64((k*7+int(t))%23) - 3})
+			}
+			out = append(out, d)
+		}
+	}
 	p := scn.DSeries{LS: [][]string{{"__name__", "p"}}, Smp: []scn.Sample{}}
 	for t := int64(0); t < span; t++ {
 		if r.Intn(3) != 0 {
